@@ -18,8 +18,15 @@ def base(method, t0, tf, dt, **kw):
 
 
 def tol_for(method):
+    # tolerances are chosen so that a scenario records at most a few hundred steps (the monitor keeps the whole trajectory)
     if isinstance(method, dict):
+        if method["rich"] in ("BackwardEuler", "Euler", "EulerSolver"):
+            return 1e-3
+        if method["rich"] in ("Midpoint", "MidpointSolver", "Heun's", "CrankNicolson"):
+            return 1e-5
         return 1e-6
+    if method in ("AHE", "Adaptive Heun-Euler", "HeunEulerSolver"):
+        return 1e-4
     if method in ADAPT or method in ADIMP:
         return 1e-6
     return None
